@@ -870,13 +870,12 @@ impl ModulePath {
             return ModulePath(Self::normalize_path(specifier));
         }
 
-        // Relative path - resolve against base
-        let base_dir = base.and_then(|b| b.parent()).unwrap_or("");
-
-        let combined = if base_dir.is_empty() {
-            specifier.to_string()
-        } else {
-            format!("{}/{}", base_dir, specifier)
+        // Relative path - resolve against base.
+        // An importer directly under the root ("/main.ts") has the directory "" - that is
+        // the root, not "no base": joining keeps the result absolute.
+        let combined = match base.and_then(|b| b.parent()) {
+            Some(base_dir) => format!("{}/{}", base_dir, specifier),
+            None => specifier.to_string(),
         };
 
         ModulePath(Self::normalize_path(&combined))
